@@ -128,10 +128,12 @@ class ANTLRSemantics:
             ast = ast.exp
         return g.PositiveClosure(exp=ast)
 
-    def negative(self, ast: g.Model) -> g.Sequence:
+    def negative(self, ast: g.Model) -> g.Group:
         neg = g.NegativeLookahead(exp=ast)
         any = g.Pattern(pattern='.')
-        return g.Sequence(sequence=[neg, any])
+        # NOTE: one unit: under a label or a repetition the grammar text
+        #   of a bare sequence would bind to its first element only
+        return g.Group(exp=g.Sequence(sequence=[neg, any]))
 
     def subexp(self, ast: g.Model) -> g.Group:
         return g.Group(exp=ast)
